@@ -34,7 +34,10 @@ ENTRY = dict(
                    "model contains the repaired behaviour of finding F9. Model (specification AND step machine, permutation wrapper, "
                    "weights, draw-tape sampler, expectation functional, final sort, public wrapper) is run against the implementation "
                    "on >1000 generated cases per run, the sequence of generator yields included; for samples_needed<=3 every answer "
-                   "sequence of the oracle is enumerated.",
+                   "sequence of the oracle is enumerated. HISTORIES: a targeted public-history stream hands generate_qpd_weights RE-USED "
+                   "QPDBasis objects (built with 1-2 other coefficient vectors, then probabilities read / weights generated / untouched, "
+                   "then the case's vectors assigned through the public coeffs setter); model and judge use the probabilities of the "
+                   "CURRENT coefficients, |c|/sum|c|.",
         level_note=STD_NOTE + "No axioms. Modelling assumptions: O-choice (numpy.random.choice(range(n),k,p) returns k indices, each of "
                    "positive probability; E[count_i]=k*p_i; different calls independent) -- the support part is monitored on every case, "
                    "the law enters only through the expectation functional; np.argsort(cp)[::-1] returns SOME descending permutation "
